@@ -23,6 +23,7 @@ CG = "direct/nn/conjgradnet/conjgrad.py"
 K, V, W = "K", "V", "W"
 _SIG = {  # op -> (argument kinds, result kind); None = same as first non-scalar argument
     "expand": ((V,), W), "reduce": ((W,), V), "fwd": ((W,), W), "bwd": ((W,), W), "mask": ((W,), W),
+    "maskC": ((W,), W), "pad": ((W,), W), "mulConjV": ((V, W), W),
     "dot": ((V, V), K), "cdiv": ((K, K), K), "toLast": ((V,), V), "toFirst": ((V,), V),
 }
 
@@ -37,7 +38,7 @@ class Role:
         return f"<{self.name}>"
 
 
-SENS, MASK, DIM, SHAPE = Role("sens"), Role("mask"), Role("dim"), Role("shape")
+SENS, MASK, MASKC, DIM, SHAPE = Role("sens"), Role("mask"), Role("maskC"), Role("dim"), Role("shape")
 
 
 class Builder:
@@ -91,8 +92,12 @@ class ClassInfo:
     def method(self, name: str) -> ast.FunctionDef:
         return find_function(self.tree, f"{self.cls}.{name}")
 
+    defaults: dict = {}
+
     def const(self, node: ast.AST):
-        """value of a literal or of `self._x` set to a literal in __init__"""
+        """value of a literal, of `self._x` set to a literal in __init__, or of a parameter with a literal default"""
+        if isinstance(node, ast.Name) and node.id in self.defaults:
+            return self.defaults[node.id]
         if isinstance(node, ast.Attribute) and isinstance(node.value, ast.Name) and node.value.id == "self":
             if node.attr in self.consts:
                 return self.consts[node.attr]
@@ -103,23 +108,17 @@ class ClassInfo:
             raise Untranslatable(f"`{ast.unparse(node)}` is not a literal")
 
 
-# which positional parameter of each inlinable callee plays which role / kind
-_METHODS = {
-    "_A_star_op": ["tensor", SENS, MASK],
-    "_A_star_A_op": ["tensor", SENS, MASK],
-    "B_op": ["tensor", SENS, MASK, "tensor"],
-}
-_HELPERS = {"_PRP": ["tensor", "tensor", DIM], "_DY": ["tensor", "tensor", "tensor", DIM],
-            "_BAN": ["tensor", "tensor", DIM]}
+# methods / module-level helpers that are inlined when called
+_INLINE_METHODS = {"_A_star_op", "_A_star_A_op", "B_op", "_forward_operator", "_backward_operator"}
+_INLINE_HELPERS = {"_PRP", "_DY", "_BAN"}
 
 
 class Tr:
     """translate expressions/statements of one function body into nodes of a Builder"""
 
-    COIL, SPATIAL = 1, (2, 3)
-
-    def __init__(self, info: ClassInfo, b: Builder, env: dict):
+    def __init__(self, info: ClassInfo, b: Builder, env: dict, coil: int = 1, spatial: tuple = (2, 3)):
         self.info, self.b, self.env = info, b, env
+        self.COIL, self.SPATIAL = coil, tuple(spatial)
         self.depth = 0
 
     # ---- helpers
@@ -131,8 +130,17 @@ class Tr:
             return call.args[pos]
         return None
 
+    def role_of(self, node: ast.AST):
+        """the Role bound to a name / subscript / attribute (by source text); `~mask` is the complementary mask"""
+        if isinstance(node, ast.UnaryOp) and isinstance(node.op, ast.Invert):
+            return MASKC if self.role_of(node.operand) is MASK else None
+        if isinstance(node, (ast.Name, ast.Subscript, ast.Attribute)):
+            v = self.env.get(ast.unparse(node))
+            return v if isinstance(v, Role) else None
+        return None
+
     def _is(self, node: ast.AST, role: Role) -> bool:
-        return isinstance(node, ast.Name) and self.env.get(node.id) is role
+        return self.role_of(node) is role
 
     def _fname(self, f: ast.AST) -> str:
         if isinstance(f, ast.Name):
@@ -147,10 +155,11 @@ class Tr:
     # ---- expressions
     def expr(self, node: ast.AST) -> int:
         b = self.b
-        if isinstance(node, ast.Name):
-            if node.id not in self.env:
-                raise Untranslatable(f"unbound name `{node.id}`")
-            v = self.env[node.id]
+        if isinstance(node, (ast.Name, ast.Subscript)) or (isinstance(node, ast.Attribute) and ast.unparse(node) in self.env):
+            key = ast.unparse(node)
+            if key not in self.env:
+                raise Untranslatable(f"unbound name `{key}`")
+            v = self.env[key]
             if isinstance(v, Role):
                 return b.unknown(f"role {v.name} used as tensor", [])
             if isinstance(v, tuple) and v[0] == "param":
@@ -167,7 +176,7 @@ class Tr:
         b, f = self.b, node.func
         # method-style calls on a tensor value
         if isinstance(f, ast.Attribute) and not (isinstance(f.value, ast.Name) and f.value.id in ("T", "torch", "self")):
-            if f.attr == "clone" and not node.args:
+            if f.attr in ("clone", "contiguous") and not node.args:
                 return self.expr(f.value)
             if f.attr == "reshape":
                 return self.expr(f.value)                    # layout only
@@ -201,12 +210,23 @@ class Tr:
                 x = self.expr(a1.func.value)
                 ax = self.info.const(a1.args[0]) if a1.args else self.info.const(self._kw(a1, "dim"))
                 return b.op("expand", [x]) if ax == self.COIL else b.unknown(f"unsqueeze {ax}", [x])
+            # complex_multiplication(w, conjugate(x).unsqueeze(coil)): coil-wise product with the conjugate image
+            if (isinstance(a1, ast.Call) and isinstance(a1.func, ast.Attribute) and a1.func.attr == "unsqueeze"
+                    and isinstance(a1.func.value, ast.Call) and self._fname(a1.func.value.func) in ("T.conjugate", "conjugate")
+                    and len(a1.func.value.args) == 1):
+                w = self.expr(a0)
+                x = self.expr(a1.func.value.args[0])
+                ax = self.info.const(a1.args[0]) if a1.args else self.info.const(self._kw(a1, "dim"))
+                return b.op("mulConjV", [x, w]) if ax == self.COIL else b.unknown(f"unsqueeze {ax}", [x, w])
             a, c = self.expr(a0), self.expr(a1)
             if b.kinds[a] == K:
                 return b.op("mul", [a, c])
             return b.unknown("complex_multiplication", [a, c])
         if name in ("T.expand_operator", "expand_operator", "T.reduce_operator", "reduce_operator"):
-            x = self.expr(node.args[0])
+            first = node.args[0] if node.args else (self._kw(node, "coil_data") or self._kw(node, "data"))
+            if first is None:
+                raise Untranslatable(f"call `{ast.unparse(node)[:60]}`")
+            x = self.expr(first)
             sens = node.args[1] if len(node.args) > 1 else self._kw(node, "sensitivity_map")
             dim = self._kw(node, "dim", 2)
             ax = self.info.const(dim) if dim is not None else 0
@@ -227,32 +247,50 @@ class Tr:
                   and self._zero_tensor(zero))
             x = self.expr(val)
             return b.op("mask", [x]) if ok else b.unknown("where " + ast.unparse(test), [x])
+        if name in ("T.apply_mask", "apply_mask") and len(node.args) >= 2:
+            x = self.expr(node.args[0])
+            rm = self._kw(node, "return_mask", 3)
+            if rm is None or not (isinstance(rm, ast.Constant) and rm.value is False):
+                return b.unknown("apply_mask returning the mask", [x])
+            r = self.role_of(node.args[1])
+            if r is MASK:
+                return b.op("mask", [x])
+            if r is MASKC:
+                return b.op("maskC", [x])
+            return b.unknown("apply_mask with " + ast.unparse(node.args[1]), [x])
+        if name in ("T.apply_padding", "apply_padding") and node.args:
+            return b.op("pad", [self.expr(node.args[0])])
         if name == "complex_dot_product" and len(node.args) == 3:
             a, c = self.expr(node.args[0]), self.expr(node.args[1])
             return b.op("dot", [a, c]) if self._is(node.args[2], DIM) else b.unknown("dot dim", [a, c])
         if name == "complex_division" and len(node.args) == 2:
             return b.op("cdiv", [self.expr(node.args[0]), self.expr(node.args[1])])
-        if name.startswith("self.") and name[5:] in _METHODS:
-            return self.inline(self.info.method(name[5:]), _METHODS[name[5:]], node, skip_self=True)
-        if name in _HELPERS:
-            return self.inline(find_function(self.info.tree, name), _HELPERS[name], node, skip_self=False)
+        if name.startswith("self.") and name[5:] in _INLINE_METHODS:
+            return self.inline(self.info.method(name[5:]), node, skip_self=True)
+        if name in _INLINE_HELPERS:
+            return self.inline(find_function(self.info.tree, name), node, skip_self=False)
         return b.unknown(name, [])
 
-    def inline(self, fn: ast.FunctionDef, roles: list, call: ast.Call, skip_self: bool) -> int:
+    def inline(self, fn: ast.FunctionDef, call: ast.Call, skip_self: bool) -> int:
         if self.depth > 4:
             raise Untranslatable("inlining too deep")
         params = [a.arg for a in fn.args.args][1 if skip_self else 0:]
-        if call.keywords or len(call.args) != len(params) or len(params) != len(roles):
-            raise Untranslatable(f"call `{ast.unparse(call)}` does not match `{fn.name}({', '.join(params)})`")
+        bound: dict[str, ast.AST] = {}
+        if len(call.args) > len(params):
+            raise Untranslatable(f"call `{ast.unparse(call)[:60]}` has too many arguments")
+        for p_, a in zip(params, call.args):
+            bound[p_] = a
+        for k in call.keywords:
+            if k.arg not in params or k.arg in bound:
+                raise Untranslatable(f"call `{ast.unparse(call)[:60]}`: keyword {k.arg}")
+            bound[k.arg] = k.value
+        if set(bound) != set(params):
+            raise Untranslatable(f"call `{ast.unparse(call)[:60]}` does not bind all of {params}")
         env = {}
-        for p, r, a in zip(params, roles, call.args):
-            if isinstance(r, Role):
-                if not self._is(a, r):
-                    return self.b.unknown(f"{fn.name}: argument `{ast.unparse(a)}` for {r.name}", [])
-                env[p] = r
-            else:
-                env[p] = self.expr(a)
-        sub = Tr(self.info, self.b, env)
+        for p_ in params:
+            r = self.role_of(bound[p_])
+            env[p_] = r if r is not None else self.expr(bound[p_])
+        sub = Tr(self.info, self.b, env, self.COIL, self.SPATIAL)
         sub.depth = self.depth + 1
         out = sub.block(fn.body)
         if out is None:
